@@ -73,6 +73,25 @@ impl<'a, T: emit::Clock + Send, P: emit::Props + Send, C: emit::span::completion
     }
 }
 
+/// An id type of another library: all `emit` can do with it is format it.
+struct ForeignId(String);
+impl std::fmt::Display for ForeignId {
+    fn fmt(&self, f: &mut std::fmt::Formatter) -> std::fmt::Result {
+        f.write_str(&self.0)
+    }
+}
+
+/// Something that is only `Display`, borrowed (stands for `format_args!`).
+struct Shown<'a>(&'a str);
+impl<'a> std::fmt::Display for Shown<'a> {
+    fn fmt(&self, f: &mut std::fmt::Formatter) -> std::fmt::Result {
+        write!(f, "{}", self.0)
+    }
+}
+fn format_args_owned(s: &str) -> Shown<'_> {
+    Shown(s)
+}
+
 /// The error of the Result-returning fixtures; it carries the interpreter's state out.
 #[derive(Debug)]
 struct LeaveErr(Leave);
@@ -191,8 +210,11 @@ fn manual(m: &'static M04, name: &'static str) -> (SpanGuard<'static, &'static C
 }
 
 fn form_manual_enter(m: &'static M04) -> Leave {
-    let (mut guard, mut frame) = manual(m, "SpanGuard::new then enter");
+    let (guard, mut frame) = manual(m, "SpanGuard::new then enter");
     let _entered = frame.enter();
+    // the guard lives inside the entered frame: declared after the EnterGuard, it is dropped
+    // before it - also when a panic unwinds through here
+    let mut guard = guard;
     guard.start();
     reply_ok();
     let l = run_loop(m);
@@ -299,7 +321,7 @@ impl Machine for M04 {
                 // either id may be absent (0): a trace id alone, a span id alone
                 let tr = Some(step["ids"][0].as_u64().unwrap()).filter(|n| *n != 0).map(incoming_trace);
                 let sp = Some(step["ids"][1].as_u64().unwrap()).filter(|n| *n != 0).map(incoming_span);
-                let frame = match (salt + f) % 4 {
+                let frame = match (salt + f) % 8 {
                     0 => Frame::push(
                         self.rt.ctxt(),
                         [
@@ -315,7 +337,42 @@ impl Machine for M04 {
                         self.rt.ctxt(),
                         tr.map(|t| ("trace_id", t.to_u128())).and_props(sp.map(|s| ("span_id", s.to_u64()))),
                     ),
-                    _ => SpanCtxt::new(tr, None, sp).push(self.rt.ctxt()),
+                    3 => SpanCtxt::new(tr, None, sp).push(self.rt.ctxt()),
+                    4 => {
+                        // hex text captured through Display of a foreign id type (not a borrowed str)
+                        let (t, s) = (tr.map(|t| ForeignId(t.to_string())), sp.map(|s| ForeignId(s.to_string())));
+                        Frame::push(
+                            self.rt.ctxt(),
+                            [
+                                t.as_ref().map(|t| ("trace_id", emit::Value::capture_display(t))),
+                                s.as_ref().map(|s| ("span_id", emit::Value::capture_display(s))),
+                            ],
+                        )
+                    }
+                    5 => {
+                        // hex text formatted on the fly
+                        let (t, s) = (tr.map(|t| t.to_u128()), sp.map(|s| s.to_u64()));
+                        let (ta, sa) = (t.map(|t| format!("{t:032x}")), s.map(|s| format!("{s:016x}")));
+                        let (tf, sf) = (ta.as_ref().map(|t| format_args_owned(t)), sa.as_ref().map(|s| format_args_owned(s)));
+                        Frame::push(
+                            self.rt.ctxt(),
+                            [
+                                tf.as_ref().map(|t| ("trace_id", emit::Value::from_display(t))),
+                                sf.as_ref().map(|s| ("span_id", emit::Value::from_display(s))),
+                            ],
+                        )
+                    }
+                    6 => {
+                        // owned String values
+                        let (t, s) = (tr.map(|t| t.to_string()), sp.map(|s| s.to_string()));
+                        Frame::push(self.rt.ctxt(), t.map(|t| ("trace_id", t)).and_props(s.map(|s| ("span_id", s))))
+                    }
+                    _ => {
+                        // typed ids turned into owned values (the type is gone, the text remains)
+                        use emit::value::ToValue;
+                        let (t, s) = (tr.map(|t| t.to_value().to_owned()), sp.map(|s| s.to_value().to_owned()));
+                        Frame::push(self.rt.ctxt(), [t.map(|t| ("trace_id", t)), s.map(|s| ("span_id", s))])
+                    }
                 };
                 self.frames.lock().unwrap().insert(f, SFrame::Plain(frame));
                 reply_ok();
@@ -341,10 +398,11 @@ impl Machine for M04 {
                         let l = rethrow(r);
                         self.after_nested(l)
                     }
-                    SFrame::Span(mut frame, mut guard) => {
+                    SFrame::Span(mut frame, guard) => {
                         let how = salt / 2 + f;
                         let leave = if (salt + f) % 2 == 0 {
                             frame.call(move || {
+                                let mut guard = guard;
                                 guard.start_it();
                                 reply_ok();
                                 let l = run_loop(self);
@@ -353,6 +411,7 @@ impl Machine for M04 {
                             })
                         } else {
                             let _g = frame.enter();
+                            let mut guard = guard;      // dropped before _g, also on unwinding
                             guard.start_it();
                             reply_ok();
                             let l = run_loop(self);
@@ -460,7 +519,11 @@ fn main() {
             let nthreads = steps[0]["exp"].as_array().map(|a| a.len()).unwrap_or(1);
             let mut consumed = 0usize;
             let o = run_case(m, nthreads, steps, |_, step, rep, obs| {
-                if rep.get("panicked").is_some() {
+                if step["op"] == "panic" {
+                    if rep["panicked"].as_str() != Some(SCRIPTED_PANIC) {
+                        return Some(json!({"what": "scripted panic was not the panic that arrived", "detail": rep}));
+                    }
+                } else if rep.get("panicked").is_some() {
                     return Some(json!({"what": "panic in code under test", "detail": rep}));
                 }
                 if step["op"] == "incoming" {
